@@ -98,6 +98,8 @@ pub enum Mangle {
     Append(u8, u8),
     /// overwrite the member count (if there is one) with this value
     Count(u16),
+    /// pad with junk until the datagram exceeds max_packet_size by 1 + k bytes
+    Oversize(u8),
 }
 
 #[derive(Clone, Copy, Debug, PartialEq, Eq, Serialize, Deserialize)]
@@ -237,7 +239,11 @@ fn st(b: u8) -> State {
 
 impl Runner {
     pub fn new(s: &Setup) -> Self {
-        let id = Id::with_renew(OWN_ADDR, s.own_gen as u16, s.own_renew);
+        Self::with_addr(s, OWN_ADDR)
+    }
+
+    pub fn with_addr(s: &Setup, addr: u16) -> Self {
+        let id = Id::with_renew(addr, s.own_gen as u16, s.own_renew);
         Runner {
             inst: Inst::new(id, s.cfg.clone(), s.codec, s.rng_seed, s.handler),
             pool: Vec::new(),
@@ -380,6 +386,12 @@ impl Runner {
             Mangle::Count(c) => {
                 if members.is_some() && bytes.len() >= hdr_len + 2 {
                     bytes[hdr_len..hdr_len + 2].copy_from_slice(&c.to_be_bytes());
+                }
+            }
+            Mangle::Oversize(k) => {
+                let want = self.inst.cfg.max_packet as usize + 1 + k as usize;
+                while bytes.len() < want {
+                    bytes.push(0x5A);
                 }
             }
         }
